@@ -1,9 +1,18 @@
 #!/bin/bash
 # Build the verification driver against /repo's current working tree.
 # Everything is offline: module cache only.  The driver is built with
-# -tags verif and a build overlay that replaces the third-party package
-# github.com/tailscale/goexpect by a synchronous stand-in
-# (harness/overlay/fakeexpect); /repo itself is not touched.
+# -tags verif; the third-party package github.com/tailscale/goexpect is
+# replaced by a synchronous stand-in (harness/overlay/fakeexpect, a local
+# module selected by the `replace` directive of harness/go.mod); /repo
+# itself is not touched.
+#
+# No file of the module cache is ever named in a build overlay: cmd/go keeps
+# a per-module index of the module cache in GOCACHE that is keyed by the
+# module directory alone, so an overlay build that is the first to index a
+# module stores the constraints and imports of the overlay files, and every
+# later build WITHOUT the overlay (tools/maprange, the repository's own
+# binaries and tests) then sees "build constraints exclude all Go files".
+# That is what broke setup on a fresh restore (DESIGN 8.4).
 set -e
 cd "$(dirname "$0")/harness"
 # the repository under verification (tools/try_seed_iso.sh points this at a
@@ -20,30 +29,28 @@ cp $REPO/go/go.sum go.sum.repo 2>/dev/null || true
 if [ -f go.sum ]; then sort -u go.sum go.sum.repo > go.sum.new && mv go.sum.new go.sum; else cp go.sum.repo go.sum; fi
 rm -f go.sum.repo
 mkdir -p ../.build/bin
-EXPDIR=$(go list -m -f '{{.Dir}}' github.com/tailscale/goexpect)
-OV=$(pwd)/overlay/fakeexpect
-cat > ../.build/overlay.json <<EOJ
-{"Replace": {
- "$EXPDIR/expect.go": "$OV/expect.go",
- "$EXPDIR/codes.go": "$OV/empty.go",
- "$EXPDIR/codes_string.go": "$OV/empty.go"
-}}
-EOJ
-go build -tags verif -overlay ../.build/overlay.json -o ../.build/verif ./cmd/verif
+rm -f ../.build/overlay.json
+# A build cache poisoned by the earlier overlay scheme (see above) makes the
+# repository itself unbuildable; it cannot be told from the outside which
+# entry is wrong, so the cache is dropped and rebuilt (about a minute, once).
+# (expect.go of the real module carries no build constraint at all.)
+if (cd $REPO/go && go list -e -f '{{.IgnoredGoFiles}}' github.com/tailscale/goexpect 2>/dev/null) | grep -qw expect.go; then
+  echo "build.sh: module index of goexpect in $GOCACHE is stale; go clean -cache"
+  go clean -cache
+fi
+go build -tags verif -o ../.build/verif ./cmd/verif
 # second driver binary for C16: additionally every `range <map>` of the
 # repository is rewritten (tools/maprange) to go through verifmap.Order
 (cd ../tools/maprange && go build -o ../../.build/maprange .)
 rm -rf ../.build/mapr
 ../.build/maprange $REPO/go "$(cd .. && pwd)/.build/mapr" > ../.build/maprange.log
 go run ./cmd/lockpoints $REPO/go "$(cd .. && pwd)/.build/lockpoints_main.go"
-python3 - "$EXPDIR" "$OV" "$REPO" <<'EOP'
+python3 - "$REPO" <<'EOP'
 import json,sys,os
-expdir,ov,repo=sys.argv[1],sys.argv[2],sys.argv[3]
+repo=sys.argv[1]
 build=os.path.abspath(os.path.join(os.getcwd(),'..','.build'))
 m=json.load(open(os.path.join(build,'mapr','overlay.json')))['Replace']
-m[expdir+'/expect.go']=ov+'/expect.go'
-m[expdir+'/codes.go']=ov+'/empty.go'
-m[expdir+'/codes_string.go']=ov+'/empty.go'
+assert not [k for k in m if '/pkg/mod/' in k], "no module-cache file may be overlaid"
 m[repo+'/go/pkg/verifmap/order.go']=os.path.join(os.getcwd(),'overlay','verifmap','order.go')
 m[repo+'/go/pkg/verifsched/sched.go']=os.path.join(os.getcwd(),'overlay','verifsched','sched.go')
 assert repo+'/go/pkg/device/main.go' not in m, "device/main.go has a range over a map now: merge the two rewrites"
